@@ -16,7 +16,13 @@
 (*         input: the handler must get Native(in), whatever Go type the raw    *)
 (*         input has (a step whose input scope is map-based unserializes       *)
 (*         map[string]any to map[string]any: the contract is the same).        *)
-(* beh   = what the step handler returns: "ok" (declared id, conforming data), *)
+(* beh   = what the step handler returns: "ok" (declared id, conforming data   *)
+(*         whose in-memory form IS its serialized form), "okr" (declared id,   *)
+(*         conforming data in an in-memory representation that DIFFERS from    *)
+(*         its serialized form: int/uint8 for an integer, []string for a list, *)
+(*         a compiled pattern, a struct-mapped sub-object inside a map - the   *)
+(*         call must return the serialized form, whatever the Go type of the   *)
+(*         handler's value),                                                   *)
 (*         "ok2" (second declared id), "undeclared" (undeclared output id),    *)
 (*         "baddata" (declared id, data the output schema rejects).            *)
 (*                                                                             *)
@@ -44,7 +50,7 @@ SigId == "sig"
 NoSig == "nosig"
 ValidInputs == {"va", "vb", "vd", "vl"}
 AllInputs == ValidInputs \cup {"inv"}
-Behs == {"ok", "ok2", "undeclared", "baddata"}
+Behs == {"ok", "ok2", "okr", "undeclared", "baddata"}
 
 VARIABLES call,       \* proc -> call record (fixed by Init)
           pc,         \* proc -> control point
